@@ -23,7 +23,7 @@ PROFILES = {
     'mixed':     dict(cons=dict(task=4, opt=2, fol=2, res=4), p_opt=0.35, p_copt=0.2, resources=0.8, p_bad=0.0, ncons=(1, 7)),
     'indicators': dict(dues=[None, 6, 9, 15, 25], horizons=[None, None, 7, 20, 30, 30, 40, 200], cons=dict(task=3, opt=1, fol=0, res=1, buf=1), p_opt=0.35, p_copt=0.05, resources=0.9, p_bad=0.0, ncons=(0, 4),
                        p_buf=0.4, n_ind=(1, 4), p_obj=0.3),
-    'buffers':   dict(horizons=[None, None, 7, 20, 30, 30, 40, 200], cons=dict(task=2, opt=1, fol=0, res=0, buf=6), p_opt=0.3, p_copt=0.0, resources=0.2, p_bad=0.0, ncons=(1, 6),
+    'buffers':   dict(horizons=[None, None, 20, 30, 30, 40, 200], cons=dict(task=2, opt=1, fol=0, res=0, buf=6), p_opt=0.2, p_copt=0.0, resources=0.2, p_bad=0.0, ncons=(1, 6),
                       p_buf=1.0, n_ind=(0, 2), p_obj=0.2),
     'objectives': dict(horizons=[None, None, 7, 20, 30, 30, 40, 200], cons=dict(task=3, opt=1, fol=0, res=1, buf=1), p_opt=0.35, p_copt=0.05, resources=0.8, p_bad=0.0, ncons=(0, 4),
                        p_buf=0.3, n_ind=(0, 2), p_obj=1.0),
@@ -102,9 +102,9 @@ class Gen:
             for b in range(1, r.choice([1, 1, 2]) + 1):
                 conc = r.random() < 0.5
                 init = r.choice([None, 0, 5, 10, 10])
-                final = r.choice([None, None, None, 3, 8]) if init is not None else r.choice([0, 4, 10])
+                final = r.choice([None, None, None, None, None, 3, 8]) if init is not None else r.choice([0, 4, 10])
                 self.ops.append(('ONewBuffer', N(b), conc, optZ(init), optZ(final),
-                                 optZ(r.choice([None, None, 0, 2])), optZ(r.choice([None, None, 12, 20]))))
+                                 optZ(r.choice([None, None, None, 0, 2])), optZ(r.choice([None, None, None, 12, 20]))))
                 self.buffers[b] = dict(conc=conc)
         lo, hi = self.pf['ncons']
         ncons = r.randint(lo, hi + (3 if self.big else 0))
